@@ -467,6 +467,24 @@ func report(env Env, p Property, ph Phase, seed uint64, fv *FoundViolation, know
 		fmt.Printf("  in a fresh process the scenario shows %s instead of %s; reporting that\n", class, fv.V.Class)
 		fv = &FoundViolation{Run: fv.Run, K: fv.K, N: fv.N, V: Violation{Class: class, Sig: sig, Detail: detail}, Scenario: fv.Scenario}
 	}
+	intermittent := false
+	if class == "" && err == nil && fv.V.Class != "data-race" && fv.V.Class != "process-crash" && fv.V.Class != "non-termination" {
+		// The library's answer may depend on something outside the scenario
+		// (map iteration order, an address, a helper goroutine): the same
+		// scenario is then wrong in some executions only. Fresh processes are
+		// cheap; a violation that shows up again within 40 of them is real and
+		// is reported as intermittent.
+		for i := 0; i < 40 && class != fv.V.Class; i++ {
+			class, sig, detail, out, err = execOnce(env, p, ph, fv.Scenario, false)
+			if err != nil {
+				break
+			}
+		}
+		if class == fv.V.Class {
+			intermittent = true
+			fmt.Printf("  the violation is intermittent: the same scenario holds in some executions and not in others\n")
+		}
+	}
 	if class != fv.V.Class {
 		// For race reports allow several attempts (bounded shadow memory).
 		okc := false
@@ -520,8 +538,20 @@ func report(env Env, p Property, ph Phase, seed uint64, fv *FoundViolation, know
 			if err != nil {
 				return false
 			}
-			res, err := SafeExecute(p, sc, ph.Name, NewLog(false))
-			return err == nil && !res.Invalid && res.Violation != nil && res.Violation.Class == fv.V.Class
+			tries := 1
+			if intermittent {
+				tries = 25
+			}
+			for i := 0; i < tries; i++ {
+				res, err := SafeExecute(p, sc, ph.Name, NewLog(false))
+				if err != nil || res.Invalid {
+					return false
+				}
+				if res.Violation != nil && res.Violation.Class == fv.V.Class {
+					return true
+				}
+			}
+			return false
 		}
 	}
 	shrinkingHang = fv.V.Class == "non-termination"
@@ -529,7 +559,7 @@ func report(env Env, p Property, ph Phase, seed uint64, fv *FoundViolation, know
 	shrinkingHang = false
 	fmt.Printf("  minimised %d -> %d bytes in %d executions\n", len(fv.Scenario), len(small), tests)
 	class2, sig2, detail2, _, err := execOnce(env, p, ph, small, false)
-	for i := 0; i < 80 && fv.V.Class == "data-race" && (err != nil || class2 != fv.V.Class); i++ {
+	for i := 0; i < 80 && (fv.V.Class == "data-race" || intermittent) && (err != nil || class2 != fv.V.Class); i++ {
 		class2, sig2, detail2, _, err = execOnce(env, p, ph, small, false)
 	}
 	if err != nil || class2 != fv.V.Class {
@@ -544,13 +574,13 @@ func report(env Env, p Property, ph Phase, seed uint64, fv *FoundViolation, know
 		return "", ExitOK
 	}
 	path := filepath.Join(env.VerifDir, "replays", fmt.Sprintf("%s-%d-%016x.json", p.ID(), seed, HashBytes(small)))
-	if err := writeReplay(path, Replay{Property: p.ID(), Phase: ph.Name, Seed: seed, Run: fv.Run, Class: class2, Sig: sig2, Detail: detail2, Shrunk: !bytes.Equal(small, fv.Scenario), Scenario: small}); err != nil {
+	if err := writeReplay(path, Replay{Property: p.ID(), Phase: ph.Name, Seed: seed, Run: fv.Run, Class: class2, Sig: sig2, Detail: detail2, Shrunk: !bytes.Equal(small, fv.Scenario), Intermittent: intermittent, Scenario: small}); err != nil {
 		fmt.Fprintln(os.Stderr, err)
 		return "", ExitInfra
 	}
 	// the replay file must reproduce in a fresh process
 	rc, _, _, out, err := execOnce(env, p, ph, small, false)
-	for i := 0; i < 80 && class2 == "data-race" && (err != nil || rc != class2); i++ {
+	for i := 0; i < 80 && (class2 == "data-race" || intermittent) && (err != nil || rc != class2); i++ {
 		rc, _, _, out, err = execOnce(env, p, ph, small, false)
 	}
 	if err != nil || rc != class2 {
@@ -703,7 +733,7 @@ func ReplayFile(env Env, id, path string) int {
 		ph = Phase{Name: r.Phase}
 	}
 	class, sig, detail, out, err := execSeq(env, p, ph, r.Prelude, r.Scenario, true)
-	for i := 0; i < 80 && r.Class == "data-race" && err == nil && class != r.Class; i++ {
+	for i := 0; i < 80 && (r.Class == "data-race" || r.Intermittent) && err == nil && class != r.Class; i++ {
 		class, sig, detail, out, err = execSeq(env, p, ph, r.Prelude, r.Scenario, true)
 	}
 	fmt.Print(out)
